@@ -28,7 +28,7 @@ REQUIRED = ["op.add", "op.assign-all", "op.assign-ids", "op.assign-times", "op.a
             "op.remove-list", "op.re-add", "route.xml", "route.protobuf", "shape.Rectangle", "shape.Circle",
             "shape.Polygon", "shape.ShapeGroup", "obstacle.static", "obstacle.dynamic-trajectory", "obstacle.dynamic-none",
             "straddling(centre-lanelets<shape-lanelets)", "inv-g-checked", "inv-r-checked", "op.move",
-            "centre-on-a-lanelet-the-occupancy-does-not-touch"]
+            "centre-on-a-lanelet-the-occupancy-does-not-touch", "scripted-history"]
 EXHAUSTIVE = {"quick": "all histories of length <= 2 over the 10-operation alphabet on a fixed 2-obstacle universe",
               "thorough": "all histories of length <= 3 over the 10-operation alphabet on a fixed 2-obstacle universe"}
 ASSUMPTIONS = ["set-based predictions are outside the quantifier", "obstacles are added after the network exists",
@@ -330,6 +330,15 @@ def run(ctx):
         for s in seqs:
             ctx.fingerprint(["ex", i, list(s)])
             run_history(rng, lanelets, obs, [alphabet[k] for k in s], "exhaustive")
+        # scripted longer histories that every universe runs (beyond the exhaustive depth): assign, move, assign again
+        for sh in ([("add", 101), ("assign-all", None), ("move", 101), ("assign-all", None)],
+                   [("add", 101), ("add", 102), ("assign-all", None), ("move", 102), ("assign-ids", 102), ("remove", 102)],
+                   [("add", 102), ("assign-all", None), ("move", 102), ("assign-all", None), ("remove", 102), ("add", 102)],
+                   [("add", 101), ("assign-all", None), ("move", 101), ("move", 101), ("assign-all", None),
+                    ("assign-center-only", None), ("assign-all", None)]):
+            ctx.fingerprint(["scripted", i, [[o, a] for o, a in sh]])
+            ctx.feature("scripted-history")
+            run_history(rng, lanelets, obs, sh, "scripted")
     # -------------------------------------------------------------------------------------------- random histories
     n = ctx.pick(120, 50000)
     for i, rng in ctx.cases("random", n):
